@@ -40,9 +40,11 @@ pub enum Profile {
     NumbersF64Random,
     Wide,
     Mixed,
+    /// counts and lengths at powers of two +-1 (members, elements, string bytes)
+    Boundary,
 }
 
-pub const PROFILES: [Profile; 13] = [
+pub const PROFILES: [Profile; 14] = [
     Profile::Flat,
     Profile::DeepObjects,
     Profile::ArraysOfArrays,
@@ -56,6 +58,7 @@ pub const PROFILES: [Profile; 13] = [
     Profile::NumbersF64Random,
     Profile::Wide,
     Profile::Mixed,
+    Profile::Boundary,
 ];
 
 impl Profile {
@@ -74,6 +77,7 @@ impl Profile {
             Profile::NumbersF64Random => "numbers-f64-random",
             Profile::Wide => "wide",
             Profile::Mixed => "mixed",
+            Profile::Boundary => "boundary",
         }
     }
 }
@@ -148,6 +152,33 @@ impl<'a> G<'a> {
         if name && !self.cfg.safe_names && self.r.chance(3) {
             // untagged odd member names (duplicates simply overwrite): empty, blank, JSONPath-ish
             return (*self.r.pick(&["", " ", "0", "$", "~", ".", "[0]", "a.b", "$.x"])).to_string();
+        }
+        if self.cfg.profile == Profile::Boundary && self.r.chance(40) {
+            // byte length exactly at / next to a power of two, built from 1-, 2-, 3- or 4-byte
+            // characters, with one character of another width at a random place
+            let target = *self.r.pick(&[0usize, 1, 2, 3, 15, 16, 17, 31, 32, 33, 63, 64, 65, 127, 128, 129, 255, 256, 257]);
+            let base = *self.r.pick(&['a', 'é', '€', '😀']);
+            let mut s = String::new();
+            while s.len() + base.len_utf8() <= target {
+                s.push(base);
+            }
+            while s.len() < target {
+                s.push('a');
+            }
+            if !s.is_empty() && self.r.chance(50) {
+                let odd = *self.r.pick(&['b', 'ß', '中', '𝄞']);
+                let chars: Vec<char> = s.chars().collect();
+                let at = self.r.usize(chars.len());
+                s = chars.iter().enumerate().map(|(i, c)| if i == at { odd } else { *c }).collect();
+            }
+            if name && self.cfg.safe_names {
+                s = s.replace(['.', '['], "_");
+            }
+            if name {
+                let t = self.tag();
+                s.push_str(&t);
+            }
+            return s;
         }
         let kind = self.alphabet();
         let n = match self.r.below(10) {
@@ -307,6 +338,7 @@ impl<'a> G<'a> {
             Profile::Wide => 3 + self.r.below(8),
             Profile::EmptyContainers => self.r.below(3),
             Profile::DeepObjects => 1 + self.r.below(3),
+            Profile::Boundary => *self.r.pick(&[0u64, 1, 2, 7, 8, 9, 15, 16, 17, 31, 32, 33]),
             _ => self.r.below(5),
         };
         let mut m = Map::new();
@@ -353,6 +385,7 @@ impl<'a> G<'a> {
         let n = match self.cfg.profile {
             Profile::EmptyContainers => self.r.below(3),
             Profile::Wide => 2 + self.r.below(6),
+            Profile::Boundary => *self.r.pick(&[0u64, 1, 2, 7, 8, 9, 15, 16, 17, 31, 32, 33]),
             _ => self.r.below(5),
         };
         let mut out = vec![];
@@ -410,12 +443,20 @@ pub fn gen_claims(r: &mut Rng, cfg: &GenCfg) -> Value {
     let n = match cfg.profile {
         Profile::Wide => 4 + g.r.below(6),
         Profile::Flat => 2 + g.r.below(6),
+        Profile::Boundary => {
+            if g.r.chance(6) {
+                *g.r.pick(&[63u64, 64, 65, 127, 128, 129, 255, 256, 257])
+            } else {
+                *g.r.pick(&[1u64, 2, 7, 8, 9, 15, 16, 17])
+            }
+        }
         _ => 1 + g.r.below(5),
     };
     for _ in 0..n {
         let name = g.string(true);
         let d = match cfg.profile {
             Profile::Flat => g.r.below(2) as u32,
+            Profile::Boundary => g.r.below(3) as u32,
             Profile::DeepObjects | Profile::ArraysOfArrays => 3 + g.r.below(5) as u32,
             _ => 1 + g.r.below(7) as u32,
         };
